@@ -7,11 +7,13 @@ use serde_json::json;
 
 pub mod c01;
 pub mod c04;
+pub mod c07;
 
 pub fn run(prop: &str, tier: &str) -> ! {
 	match prop {
 		"C01" => c01::run(tier),
 		"C04" => c04::run(tier),
+		"C07" => c07::run(tier),
 		_ => machinery_error(&format!("unknown property {}", prop)),
 	}
 }
@@ -21,6 +23,9 @@ pub fn run_scenarios(run: &mut Run, scns: &[Scenario], budget: &Budget) {
 	let mut total = Stats::new_complete();
 	for scn in scns {
 		let t0 = std::time::Instant::now();
+		let mut scn = scn.clone();
+		scn.property = run.property.clone();
+		let scn = &scn;
 		let (st, found) = graph_search(scn, budget);
 		println!(
 			"  scenario {:<40} states={} transitions={} executions={} depth={} outcomes={} multi-stage={} pm-traces={} {}{:.1}s",
@@ -44,6 +49,9 @@ pub fn run_scenarios(run: &mut Run, scns: &[Scenario], budget: &Budget) {
 			}
 		}
 		total.add(&st);
+		for (k, n) in st.known_hits.iter() {
+			run.known_hit(k, *n);
+		}
 		if let Some(f) = found {
 			let f = minimise(scn, &f);
 			let rendering = format!(
@@ -87,6 +95,7 @@ pub fn replay(path: &str) -> ! {
 			}
 			let mut scn = Scenario::new("replay", cfg, alphabet);
 			scn.pm = false;
+			scn.property = j["property"].as_str().unwrap_or("").to_string();
 			let dir = workdir("replay");
 			let r = run_history(&scn, &dir, &hist);
 			cleanup_scratch();
